@@ -101,12 +101,19 @@ func Solve(file, qfFile, liaFile string, timeout time.Duration, all bool, cover 
 			runs = append(runs, run{s, qfFile, true})
 		}
 	}
-	if liaFile != "" {
+	for i, lf := range strings.Split(liaFile, ";") {
+		if lf == "" {
+			continue
+		}
+		suffix := "+int"
+		if i == 1 {
+			suffix = "+intq" // integer variant that keeps the quantified assumptions
+		}
 		for _, s := range solvers {
-			if s.name == "z3" {
+			if s.name == "z3" || (i == 1 && s.name == "cvc5") {
 				continue
 			}
-			runs = append(runs, run{solverSpec{s.name + "+int", s.argv}, liaFile, true})
+			runs = append(runs, run{solverSpec{s.name + suffix, s.argv}, lf, true})
 		}
 	}
 	ch := make(chan ans, len(runs))
